@@ -12,7 +12,7 @@ impl Property for Prop {
         "C11"
     }
     fn rule(&self) -> &'static str {
-        concat!("a call is non-trivial for C11 when it returned Ok for a first fragment or a continuation (context advance and payload slice are judged). Generators: ", "see coverage.generators")
+        concat!("a call is non-trivial for C11 when it returned Ok for a first fragment or a continuation (context advance and payload slice are judged); a continuation on a valid context into a buffer of fewer than 7 bytes must be REJECTED (Err), a panic is a violation. Generators: ", "see coverage.generators")
     }
     fn gens(&self, cx: &Cx) -> Vec<Gen> {
         sendwl::gens(cx)
